@@ -7,6 +7,11 @@ Local Open Scope Q_scope.
 Definition asVec (s : sx) : option (list Q) := asListOf asQ s.
 Definition asMat (s : sx) : option mat := asListOf asVec s.
 Definition asOVec (s : sx) : option (list (option Q)) := asListOf asOQ s.
+(* outputs of long exact computations are rounded down to a multiple of 2^-200 before printing (the exact value may have
+   tens of thousands of digits); comparisons with the implementation use tolerances >= 1e-16 *)
+Definition OUTBITS : Z := 2 ^ 200.
+Definition ofQa (q : Q) : sx := L [I (Z.div (Qnum q * OUTBITS) (Zpos (Qden q))); I OUTBITS].
+Definition ofVeca (v : list Q) : sx := ofList ofQa v.
 Definition ofVec (v : list Q) : sx := ofList ofQ v.
 Definition ofMat (m : mat) : sx := ofList ofVec m.
 Definition ofORow (o : option (list Q)) : sx := match o with Some v => ofVec v | None => L [] end.
@@ -53,6 +58,124 @@ Definition run_pca (mode : Z) (nv : nat) (cols : list (list (option Q))) (sel : 
       match F2Zo with Some m => ofMat m | None => L [] end;
       ofList ofORow factors; ofList ofORow back; ofVec resid; ofList ofORow xback ].
 
+(* ---- kind 1: hermitePolynomials.  (1 y r n sq) -> (code recurrence with the harvested roots, unnormalised h_k r^k, k!) *)
+Definition sqfun (sq : list Q) : nat -> Q := fun k => vget sq k.
+Definition run_hermite (y r : Q) (n : nat) (sq : list Q) : sx :=
+  L [ ofVeca (hermite_polynomials (sqfun sq) (sqfun sq) y r n);
+      ofVeca (hermite_polynomials natQ (fun _ => 1) y r n);
+      ofVec (map factQ (seq 0 n)) ].
+
+(* ---- kind 2: AnamHermite.  (2 flagBound psi sq az ay pz py yq zq) ; interval = (min max mininc maxinc) *)
+Definition asInterval (s : sx) : option interval :=
+  match s with
+  | L [a; b; i1; i2] =>
+      match asOQ a, asOQ b, asB i1, asB i2 with
+      | Some a', Some b', Some i1', Some i2' => Some {| iv_min := a'; iv_max := b'; iv_mininc := i1'; iv_maxinc := i2' |}
+      | _, _, _, _ => None
+      end
+  | _ => None
+  end.
+(* smallest distance between z and the forward values met by the scan and the bisection (decision margins) *)
+Definition qmin (a b : Q) : Q := if qltb b a then b else a.
+Fixpoint scan_up_m (phi : Q -> Q) (z : Q) (cnt : nat) (y1 m : Q) : Q :=
+  match cnt with
+  | O => m
+  | S c => let y2 := Qred (y1 + YPAS) in let z2 := phi y2 in let m' := qmin m (Qabs (z2 - z)) in
+           if qltb z z2 then m' else scan_up_m phi z c y2 m'
+  end.
+Fixpoint scan_down_m (phi : Q -> Q) (z : Q) (cnt : nat) (y2 m : Q) : Q :=
+  match cnt with
+  | O => m
+  | S c => let y1 := Qred (y2 - YPAS) in let z1 := phi y1 in let m' := qmin m (Qabs (z1 - z)) in
+           if qltb z1 z then m' else scan_down_m phi z c y1 m'
+  end.
+Fixpoint bisect_m (phi : Q -> Q) (z dzmax : Q) (fuel : nat) (dy y1 y2 z1 z2 m : Q) : Q :=
+  let m0 := qmin m (Qabs (z2 - z1 - dzmax)) in
+  if qltb dzmax (z2 - z1) && qltb DYMAX dy then
+    match fuel with
+    | O => m0
+    | S f => let yg := Qred ((y1 + y2) / 2) in let zg := phi yg in let m' := qmin m0 (Qabs (zg - z)) in
+             if qltb z zg then bisect_m phi z dzmax f (yg - y1) y1 yg z1 zg m'
+             else bisect_m phi z dzmax f (y2 - yg) yg y2 zg z2 m'
+    end
+  else m0.
+Definition r2t_margin (phi : Q -> Q) (z : Q) : Q :=
+  let z0 := phi 0 in
+  let m0 := Qabs (z0 - z) in
+  if qltb z0 z then
+    let m1 := scan_up_m phi z 101 0 m0 in
+    match scan_up phi z 101 0 z0 with
+    | (y1, y2, z1, z2, _) => bisect_m phi z (dzmax_of phi) BISECT_FUEL 1 y1 y2 z1 z2 m1
+    end
+  else
+    let m1 := scan_down_m phi z 101 0 m0 in
+    match scan_down phi z 101 0 z0 with
+    | (y1, y2, z1, z2, _) => bisect_m phi z (dzmax_of phi) BISECT_FUEL 1 y1 y2 z1 z2 m1
+    end.
+Definition in_core_b (A : anam) (z : Q) : bool :=
+  negb (an_flagBound A) ||
+  negb (outside_below (an_az A) z || outside_above (an_az A) z || outside_below (an_pz A) z || outside_above (an_pz A) z).
+Definition ofBracket (o : option bracket) : sx :=
+  match o with Some (a, b, za, zb) => L [ofQa a; ofQa b; ofQa za; ofQa zb] | None => L [] end.
+(* sum of |psi_n H_n(y)|: the scale of the round-off of the double evaluation *)
+Definition abs_expansion (A : anam) (y : Q) : Q :=
+  dotr (map Qabs (an_psi A)) (map Qabs (herm_gen (an_sq A) (an_sq A) y (length (an_psi A)))) 0.
+(* The scans of every query visit the same grid k * YPAS: the forward values on the grid are tabulated once per case.
+   [memo_phi] is extensionally the forward function; C18_bisection / C18_r2t_monotone hold for any phi, and
+   Proofs_anam.r2t_in_core shows that r2t A z = clamp (r2t_core (t2r A) z) when no bound test fires. *)
+Fixpoint grid (step : Q) (cnt : nat) (y : Q) : list Q :=
+  match cnt with O => [] | S c => let y' := Qred (y + step) in y' :: grid step c y' end.
+Fixpoint grid_down (cnt : nat) (y : Q) : list Q :=
+  match cnt with O => [] | S c => let y' := Qred (y - YPAS) in y' :: grid_down c y' end.
+Definition memo_phi (tbl : list (Q * Q)) (phi : Q -> Q) (y : Q) : Q :=
+  match find (fun p => Qeq_bool (fst p) y) tbl with Some p => snd p | None => phi y end.
+Definition run_anam (A : anam) (yq zq : list (option Q)) : sx :=
+  let phi0 := t2r A in
+  let keys' := 0 :: 1 :: (-(1)) :: grid YPAS 101 0 ++ grid_down 101 0 in
+  let tbl := map (fun y => (y, phi0 y)) keys' in
+  let phi := memo_phi tbl phi0 in
+  L [ ofList (fun o => match o with Some y => L [ofQa (phi0 y); ofQa (abs_expansion A y)] | None => L [] end) yq;
+      ofList (fun o => match o with
+                       | Some z =>
+                           if in_core_b A z then
+                             match r2t_core phi z with
+                             | Some (y0, b) =>
+                                 let y := if an_flagBound A then clamp_hi (getVmax (an_ay A)) (clamp_lo (getVmin (an_ay A)) y0) else y0 in
+                                 L [ofQa y; ofQa (phi0 y); ofBracket b; I 1; ofQa (r2t_margin phi z); ofQa (abs_expansion A y)]
+                             | None => L [I (-1)]
+                             end
+                           else
+                             match r2t A z with
+                             | Some y => L [ofQa y; ofQa (phi0 y); L []; I 0; L []; ofQa (abs_expansion A y)]
+                             | None => L [I (-1)]
+                             end
+                       | None => L []
+                       end) zq;
+      ofQa (dzmax_of phi) ].
+
+(* ---- kind 3: normal score.  (3 data wt) -> probability by sample index (or ()) ; () when the code refuses *)
+Definition run_ns (data : list (option Q)) (wt : list Q) : sx :=
+  match ns_probs data wt with
+  | Some res => L [I 1; ofList (fun i => ofOQ (ns_lookup res i)) (seq 0 (length data));
+                   ofList (fun e => ofNat (fst (fst e))) res]
+  | None => L [I 0]
+  end.
+
+(* ---- kind 4: AnamEmpirical.  (4 ZDisc YDisc yq zq) *)
+Definition run_emp (ZD YD : list Q) (yq zq : list (option Q)) : sx :=
+  L [ ofList (fun o => match o with Some y => ofQ (emp_interp YD ZD y) | None => L [] end) yq;
+      ofList (fun o => match o with
+                       | Some z => let y := emp_interp ZD YD z in L [ofQ y; ofQ (emp_interp YD ZD y)]
+                       | None => L []
+                       end) zq ].
+
+(* ---- kind 5: Rotation.  (5 n flag rotMat rotInv vecs) *)
+Definition run_rot (n : nat) (flag : bool) (M Mi : mat) (vecs : list (list Q)) : sx :=
+  L [ ofList (fun v => let d := rotate_direct n flag M v in L [ofVec d; ofVec (rotate_inverse n flag Mi d)]) vecs;
+      ofVec [ mat_resid n n (fmulr n (ftr (get M)) (get M)) delta;
+              mat_resid n n (fmulr n (get M) (ftr (get M))) delta;
+              mat_resid n n (get Mi) (ftr (get M)) ] ].
+
 Definition run (c : sx) : sx :=
   match c with
   | L [I 0%Z; I mode; nv; cols; sel; eigval; E; sq; sigma; Zi; Fi; extra] =>
@@ -61,6 +184,33 @@ Definition run (c : sx) : sx :=
       | Some nv', Some cols', Some sel', Some eigval', Some E', Some sq', Some sigma', Some Zi', Some Fi', Some extra' =>
           run_pca mode nv' cols' sel' eigval' E' sq' sigma' Zi' Fi' extra'
       | _, _, _, _, _, _, _, _, _, _ => sx_error 1
+      end
+  | L [I 1%Z; y; r; n; sq] =>
+      match asQ y, asQ r, asNat n, asVec sq with
+      | Some y', Some r', Some n', Some sq' => run_hermite y' r' n' sq'
+      | _, _, _, _ => sx_error 1
+      end
+  | L [I 2%Z; fb; psi; sq; az; ay; pz; py; yq; zq] =>
+      match asB fb, asVec psi, asVec sq, asInterval az, asInterval ay, asInterval pz, asInterval py, asOVec yq, asOVec zq with
+      | Some fb', Some psi', Some sq', Some az', Some ay', Some pz', Some py', Some yq', Some zq' =>
+          run_anam {| an_flagBound := fb'; an_az := az'; an_ay := ay'; an_pz := pz'; an_py := py';
+                      an_psi := psi'; an_sq := sqfun sq' |} yq' zq'
+      | _, _, _, _, _, _, _, _, _ => sx_error 1
+      end
+  | L [I 3%Z; data; wt] =>
+      match asOVec data, asVec wt with
+      | Some d, Some w => run_ns d w
+      | _, _ => sx_error 1
+      end
+  | L [I 4%Z; zd; yd; yq; zq] =>
+      match asVec zd, asVec yd, asOVec yq, asOVec zq with
+      | Some zd', Some yd', Some yq', Some zq' => run_emp zd' yd' yq' zq'
+      | _, _, _, _ => sx_error 1
+      end
+  | L [I 5%Z; n; fl; M; Mi; vecs] =>
+      match asNat n, asB fl, asMat M, asMat Mi, asMat vecs with
+      | Some n', Some fl', Some M', Some Mi', Some vecs' => run_rot n' fl' M' Mi' vecs'
+      | _, _, _, _, _ => sx_error 1
       end
   | _ => sx_error 0
   end.
